@@ -317,7 +317,7 @@ func fnMset(ctx *cmdContext, args map[string]any) (output respValue, err error) 
 	keyValuePairs, _ := args["data"].([]any)
 
 	options := bitflags(0)
-	if ctx.cmdName == "msetnx" {
+	if ctx.cmdToken == "msetnx" {
 		options = SET_NOT_EXIST
 	}
 
@@ -335,7 +335,7 @@ func fnMset(ctx *cmdContext, args map[string]any) (output respValue, err error) 
 }
 
 func fnSet(ctx *cmdContext, args map[string]any) (output respValue, err error) {
-	output, _ = setWorker(ctx.cmdName, args, ctx.dsc, false, false)
+	output, _ = setWorker(ctx.cmdToken, args, ctx.dsc, false, false)
 	return
 }
 
